@@ -33,6 +33,8 @@ UNARY_EDITS = (
     ("sel", Q_GT_0),
     ("sel", ("and", ("gt", R("a"), L(0)), Q_GT_0)),
     ("sel", ("in_seq", R("a"), (R("q"), L(1)))),
+    ("sel", ("and", Q_GT_0, ("plit", False))),
+    ("sel", ("and", ("plit", False), Q_GT_0)),
     ("sel", ("gt", R("c"), L(0))),
     ("sel", ("lt", R("x"), L(0))),
     S((R("q"), True)),
